@@ -39,7 +39,9 @@ RULE = (
     "raised to the minimum size + 2) every object of both start classes (brute force) is mapped and mapped back. The "
     "model runs its own search on descriptors of the two specifications, runs the proved checker on the order map THE "
     "IMPLEMENTATION built and maps the parse trees of the objects (<= 36 per direction, spread over all sizes) with that order map; "
-    "compared: found-or-not, checker verdict, every mapped tree. Non-trivial: a bijection was constructed and >= 8 "
+    "compared: found-or-not, checker verdict, every mapped tree, the ENTRIES of the order map the model's own search leaves "
+    "against the real Bijection's (insertion order ignored), and the verdicts wf_spec of both descriptors (Iso/Deciders.v "
+    "wf_specb against Desc.wf). Non-trivial: a bijection was constructed and >= 8 "
     "objects were mapped (equiv stream: >= 2 non-empty dictionaries); distinct = distinct case description."
 )
 TECHNIQUE = (
@@ -48,14 +50,14 @@ TECHNIQUE = (
     "specifications + an independent brute-force oracle (bijectivity on the objects, symmetry, reflexivity)"
 )
 LEVEL_TEXT = (
-    "Theorems of coq/theories/Props/C12.v (28, all closed under the global context). The model of the search takes a "
+    "Theorems of coq/theories/Props/C12.v (32, all closed under the global context). The model of the search takes a "
     "flag `exact` for the recursive-match test: true = /repo as it is since fix 91c1aef (_ancestors holds only the pair of "
     "current classes), false = the code before that fix (_ancestors held product(eq_path1, eq_path2); historic, run by no "
     "case); the harness detects which one the code under test implements (today: exact = true) and runs the model with "
     "it; every theorem mentioning `exact` is proved for both. For ALL "
     "pairs of specifications (finite maps class -> rule descriptor; wf_spec where stated: an equivalence rule has one, "
     "non-empty, child and equivalence chains end; products have no empty factor; roots not empty - decided on every "
-    "specification of every run), all objects given as WELL-FORMED PARSE TREES of any size - wf_tree has node formers "
+    "specification of every run by the extracted model (wf_specb, C12_wf_spec_decided) and by the harness, compared), all objects given as WELL-FORMED PARSE TREES of any size - wf_tree has node formers "
     "for atoms, equivalence steps, unions (constructor tag 0) and products (tag 1) ONLY: a class whose rule is a "
     "Complement / Quotient (the reverse of a non-equivalence rule) or a user constructor has no well-formed tree and the "
     "tree theorems say nothing about objects passing through it (C12_scope, C12_nonequiv_reverse_no_tree); since fix "
@@ -67,6 +69,9 @@ LEVEL_TEXT = (
     "second, preserves size, inverse_map(map t) = t and map(inverse_map u) = u); C12_iso_cert (whenever the search with "
     "_ancestors / _order_map / _failed / stack / blacklist / the clean-up of 7890ace / the test of e943cb6 answers True, "
     "the order map it leaves is a valid certificate); C12_constructed_bijection; C12_check_cert_sound; "
+    "C12_wf_spec_decided (wf_specb = true -> wf_spec) and C12_transport_inverse_decided (C12_transport_inverse with its "
+    "three hypotheses replaced by the verdicts run_c12 prints for the case: wf_specb of both descriptors, check_cert of "
+    "the real order map); "
     "C12_cert_symmetric; C12_search_complete (the search never answers False when the roots are related by a relation "
     "whose pairs pass the search's own local test with the children paired into related pairs); C12_ctor_equiv_sym / "
     "_refl; TERMINATION: C12_search_terminates (for every fuel >= number of pairs of classes + a bound on the stack "
@@ -108,8 +113,9 @@ LEVEL_NOTE = (
     "exists for every tree; it is not computed). Objects: the theorems *_objects reduce 'objects <-> well-formed parse "
     "trees one to one' to the strategies' forward/backward-map contracts (C07_objects_are_parse_trees; user-code "
     "hypotheses, for derived forms theorems C07_equivalence_contract / C07_path_contract) and `idescribes` (descriptor = "
-    "specification: a per-instance fact, the descriptor is computed by the harness, the C07 descriptor by c07.py - the two "
-    "are not built from one another in any run). The extracted model still maps TREES: obj_map / iunparse / emb are not "
+    "specification: a per-instance fact; since the deciders of Iso/DecidersObjects.v the harness builds the C07 descriptor "
+    "of the SAME specification with c07.py's own function and the extracted run decides idescribes + rank + closed on "
+    "the pair, on every case). The extracted model still maps TREES: obj_map / iunparse / emb are not "
     "run against the code; per case the model's tree map is compared with the trees of bij.map(o) / bij.inverse_map(o) on "
     "<= 36 objects per direction (Desc.tree = iparse), parse/unparse themselves by the C07 check, and the full brute-force "
     "bijectivity on all objects of sizes <= nmax is the oracle's (independent of the model). The descriptor reading of "
@@ -135,10 +141,23 @@ TRUSTED = [
     "/repo/example.py)",
 ]
 ASSUMPTIONS = [
-    "wf_spec for both specifications (decided per specification by the harness; a failure only tags the case "
-    "'hypothesis-fails:*' in the input distribution - nothing fails on it, the case is then covered by the oracle alone)",
+    "wf_spec for both specifications (decided per specification by the extracted run - Iso/Deciders.v wf_specb, sound by "
+    "C12_wf_spec_decided - AND by the harness, the two verdicts compared on every case; a failure only tags the case "
+    "'hypothesis-fails:*' / 'thm:C12_transport_inverse_decided:not_covered(wf_spec)' in the input distribution - nothing "
+    "fails on it, the case is then covered by the oracle alone; extra_checks `covered_by_theorem` counts the constructed "
+    "bijections on which wf_spec of both descriptors and check_cert of the real order map hold)",
+    "valid_cert of the order map the REAL code built: decided by check_cert in the extracted run on every constructed "
+    "bijection (also the JSON-reloaded ones); the harness expects 1, so a 0 is reported as a mismatch "
+    "(C12_check_cert_sound, C12_transport_inverse_decided). C12_constructed_bijection(_objects) speak of the order map "
+    "the MODEL's search leaves: its entries are compared with the real order map on every constructed bijection",
     "*_objects: node_ok / closed / rank certificate of C07_objects_are_parse_trees for both specifications, idescribes "
-    "(labels are >= 0; atoms' sizes; same children; every other class has no well-formed tree), the roots have rules",
+    "(labels are >= 0; atoms' sizes; same children; every other class has no well-formed tree), the roots have rules. "
+    "idescribes, closed and the existence of a rank certificate are DECIDED on every case for both specifications: the "
+    "harness builds the C07 descriptors of the same specifications (c07.py _rule_desc, Desc's labels), run_c12 decides "
+    "them (idescribesb, rankb, closedb; C12_idescribes_decided, C12_transport_inverse_objects_decided), the harness "
+    "recomputes the verdicts, extra_checks counts the constructed bijections covered (about 94%; the others are the "
+    "specifications with statistics: StatAtom leaves have no leaf in the C07 descriptor). node_ok (bijection contracts of "
+    "the strategies' maps) is NOT decided and stays a hypothesis",
     "strategies honour the bijection contract of forward_map / backward_map and is_empty / is_atom are exact "
     "(indirectly, through the oracle's bijectivity check on the objects of sizes <= nmax of every case with a bijection)",
     "rules are plain Rule / EquivalenceRule / EquivalencePathRule / ReverseRule-of-equivalence / VerificationRule "
@@ -904,6 +923,57 @@ def _nonequiv_reverse(spec):
                for r in spec.rules_dict.values())
 
 
+# ------------------------------------------------------------------ hypotheses of the *_objects theorems, decided
+def c07_descs(d):
+    """the C07 descriptors (harness/props/c07.py _rule_desc, imported - not copied) of the specification of the Desc
+    `d` under d's labels; objects interned as integers; forms tabulated to size 0 only (the deciders read kinds,
+    children, minimum / maximum sizes, atoms).  None when c07.py cannot describe the specification."""
+    from harness.props import c07
+
+    table = {}
+    try:
+        w = c07.world_of_spec(d.spec, order=list(d.classes), mutate=False)
+        return c07.descriptors(w, 0, enc=lambda o: table.setdefault(o, len(table)))
+    except Exception:  # pylint: disable=broad-except
+        return None
+
+
+def idescribes_py(d, descs):
+    """Iso/DecidersObjects.v idescribesb, recomputed on the Desc `d` and the C07 descriptors `descs`"""
+    rules = {}
+    for r in d.rules:
+        rules.setdefault(r[0], r)
+    empty = set(d.empty)
+    ok = all(0 <= r[0] < len(descs) for r in d.rules)
+    for c, ds in enumerate(descs):
+        r = rules.get(c)
+        if ds[0] in (0, 1):
+            kids = list(ds[1])
+            ok = ok and (r is not None and c not in empty and list(r[2]) == kids and bool(kids) and bool(r[1])
+                         and ((bool(r[3]) and len(kids) == 1) or (not r[3] and r[4][0] == ds[0])))
+        elif ds[0] == 3:
+            asize = r[6][0][0] if r is not None and r[6] and r[6][0] else 0
+            ok = ok and (r is not None and c not in empty and not r[2] and bool(r[5]) and ds[1] == asize)
+        else:
+            ok = ok and (r is None or c in empty or (not r[2] and not r[5])
+                         or (not r[3] and not r[1] and not (not r[2] and r[5])))
+    return int(bool(ok))
+
+
+def objects_verdict(d1, d2, descs):
+    """[idescribes1, rank1, closed1, idescribes2, rank2, closed2] (what run_c12 answers for the appended input field)"""
+    from harness.props import c07
+
+    if not descs:
+        return []
+    out = []
+    for d, ds in zip((d1, d2), descs):
+        shapes = [[0, x[1]] if x[0] == 0 else [1, x[1], x[2], x[3]] if x[0] == 1 else [2] for x in ds]
+        rv = c07.rank_verdict(shapes)
+        out += [idescribes_py(d, ds), rv[0], rv[1]]
+    return out
+
+
 def impl(case):
     from comb_spec_searcher.isomorphism import Bijection, Isomorphism
 
@@ -1034,6 +1104,30 @@ def impl(case):
     else:
         enc = [0, d1.enc(), d2.enc(), FUEL, [], [], [], exact_mode()]
         out = [0, int(found), 0, [], []]
+    # appended fields of run_c12 (Iso/Run.v): [same entries, wf_specb spec1, wf_specb spec2].  wf_spec is decided here
+    # by Desc.wf (its parts eq_wf / prod_wf / root not empty) and in Coq by Iso/Deciders.v wf_specb; the model's own
+    # search must leave the ENTRIES of the order map the real Bijection holds (then C12_constructed_bijection, which
+    # speaks of the model's order map, speaks of the real one; a different valid certificate would be a mismatch to
+    # investigate - none on seeds 0-2)
+    wfv = [int(not (set(d.wf()) & {"eq_wf", "prod_wf", "root-empty"})) for d in (d1, d2)]
+    out = out + [int(bij is not None)] + wfv
+    if bij is not None:
+        # cert_ok = 1 is EXPECTED in `out`: check_cert runs on the real order map on every constructed bijection
+        tags.append("thm:C12_transport_inverse_decided:covered" if all(wfv) else
+                    "thm:C12_transport_inverse_decided:not_covered(wf_spec)")
+    # appended INPUT field 8 = the C07 descriptors of both specifications; appended output = objects_verdict
+    descs7 = [c07_descs(d1), c07_descs(d2)]
+    if None in descs7:
+        descs7 = []
+    ov = objects_verdict(d1, d2, descs7)
+    enc = enc + [descs7]
+    out = out + [ov]
+    if bij is not None:
+        names = ("idescribes spec1", "rank spec1", "closed spec1", "idescribes spec2", "rank spec2", "closed spec2")
+        missing = ["no C07 descriptor"] if not ov else [h for h, b in zip(names, ov) if not b]
+        missing += [] if all(wfv) else ["wf_spec"]
+        tags.append("thm:C12_transport_inverse_objects:covered" if not missing else
+                    "thm:C12_transport_inverse_objects:not_covered(%s)" % " + ".join(missing))
     for d, nm in ((d1, "spec1"), (d2, "spec2")):
         for b in d.wf():
             tags.append("hypothesis-fails:%s" % b)
@@ -1070,10 +1164,14 @@ def _shape(d1, d2, order):
 
 
 def canon_model(mo):
-    """the last field (the model's search left exactly the implementation's order map) is informational: another
-    valid certificate is not a disagreement"""
+    """field 5 (the model's search left the implementation's order map IN THE SAME INSERTION ORDER) is informational:
+    the order of a dict is not observable through Bijection.map; the fields after it are compared"""
     if isinstance(mo, list) and len(mo) == 6:
         return mo[:5]
+    if isinstance(mo, list) and len(mo) in (9, 10):
+        # fields 6-8 ARE compared: same ENTRIES as the implementation's order map (insertion order ignored), and the
+        # verdicts wf_specb of the two descriptors (Iso/Deciders.v) against Desc.wf
+        return mo[:5] + mo[6:]
     return mo
 
 
@@ -1095,6 +1193,48 @@ def finding_match(case, why):
             and ";" not in why and ":" not in why.split("=", 1)[1] and exact_mode() == 0):
         return KF_ASYM
     return None
+
+
+MIN_COVERED = 0.98     # of the constructed bijections; measured 1.00 on seeds 0, 1, 2 (quick tier)
+MIN_COVERED_OBJECTS = 0.88   # *_objects theorems; measured 0.933-0.941 (the rest: StatAtom leaves), seeds 0, 1, 2
+
+
+def extra_checks(ctx):
+    """on how many constructed bijections the hypotheses of C12_transport_inverse hold as DECIDED verdicts: wf_spec of
+    both descriptors (wf_specb in the extracted run = Desc.wf here, compared by the core) and valid_cert of the order
+    map the real code built (check_cert in the extracted run, 1 expected here: a 0 is a mismatch); fails when the
+    generator drifts away from the theorem"""
+    n = k = ko = 0
+    reasons = {}
+    for res, _why, _nt in ctx.impl_res:
+        t = res.get("tags", [])
+        if "bijection" not in t:
+            continue
+        n += 1
+        k += "thm:C12_transport_inverse_decided:covered" in t
+        ko += "thm:C12_transport_inverse_objects:covered" in t
+        for x in t:
+            if x.startswith("thm:C12_transport_inverse_objects:not_covered"):
+                reasons[x[45:]] = reasons.get(x[45:], 0) + 1
+    objects = (
+        "covered_by_theorem C12_transport_inverse_objects / C12_constructed_bijection_objects: %d of %d constructed "
+        "bijections" % (ko, n), n == 0 or ko / n >= MIN_COVERED_OBJECTS,
+        "covered = additionally idescribes, the rank certificate and closedness hold for BOTH specifications, decided "
+        "on the C07 descriptors of the same specifications (c07.py _rule_desc under Desc's labels) by the extracted run "
+        "(Iso/DecidersObjects.v idescribesb, Count/ParseTreesDeciders.v rankb / closedb) and recomputed here; node_ok "
+        "(the strategies' bijection contracts) stays a hypothesis. Not covered: %s - the specifications with "
+        "statistics, whose atoms are verified by StatAtom, not AtomStrategy: the C07 descriptor has no leaf for them "
+        "(CLAUSES C07 (c)1); minimum fraction %.2f" % (reasons or "none", MIN_COVERED_OBJECTS))
+    return [objects,
+        ("covered_by_theorem C12_transport_inverse_decided: %d of %d constructed bijections" % (k, n),
+         n == 0 or k / n >= MIN_COVERED,
+         "retained cases in which Bijection.construct returned a bijection; covered = wf_specb of both descriptors and "
+         "check_cert of the REAL order map are 1 (hypotheses of C12_transport_inverse, decided by the extracted run and "
+         "compared with the harness on every case); on every one of them the model's own search also left the same "
+         "order-map entries as the real code (compared field `same entries`), so C12_constructed_bijection speaks of the "
+         "same order map; the *_objects theorems additionally need node_ok / rank / idescribes, decided by no run; "
+         "minimum fraction %.2f" % MIN_COVERED),
+    ]
 
 
 def nontrivial(case, res):
